@@ -148,6 +148,8 @@ def _worker(args):
                     res['inconclusive'].append(dict(label='definedness', why='%s [%s]' % (txt, r1), env=env, path=pi))
             for gl, rec in zip(pr.goals, out):
                 res['obligations'] += 1
+                if rec.get('t', 0) > 2.0:
+                    res['notes'].append('slow: path %d %s %.1fs %s' % (pi, gl.label, rec['t'], rec['verdict']))
                 if gl.cond is not X.TRUE:
                     res['nontrivial'] += 1
                 v = rec['verdict']
@@ -189,6 +191,7 @@ def _worker(args):
                 res['errors'].append(dict(path=pi, error='validation crashed: %r' % (e,), tb=traceback.format_exc()[-1500:]))
         res['queries'] += pv.queries
         res['solver_s'] += pv.solver_time
+        res['notes'].append('explore: %d queries %.1fs; prove: %d queries %.1fs' % (ex.queries, ex.solver_time, pv.queries, pv.solver_time))
         res['samples'] = pv.samples[:2]
         if paths and not reached and not res['violations'] and not res['inconclusive'] and not res['errors']:
             if not g.get('allow_unreached'):
@@ -345,6 +348,9 @@ def main(argv=None):
     for r in results:
         for x in r['inconclusive']:
             print('  INCONCLUSIVE group=%s %s: %s' % (r['group'], x.get('label'), x.get('why')))
+        if a.v:
+            for nt in r['notes']:
+                print('  note group=%s %s' % (r['group'], nt))
         for x in r['errors']:
             print('  HARNESS-ERROR group=%s: %s' % (r['group'], x.get('error')))
             if a.v and x.get('tb'):
